@@ -10,9 +10,13 @@
    OPEN packets on the wire are judged by the C14 clauses of the TraceEnv monitor.
 """
 import inspect
+import os
 import random
+import shutil
+import subprocess
 import sys
 import threading
+import time
 
 from .. import env, sched, simdev, tlc, tour, transports, wire
 from ..framework import main
@@ -306,6 +310,51 @@ def opcode_preemptions(ctx, start):
     return traces, scheds
 
 
+def apalache_inductive(ctx):
+    """Thorough tier: the allocator with the real modulus 2^32 and any starting value, decided by an inductive invariant
+    (tla/AdbAllocInd.tla, Apalache).  TLC first checks IndInv and Safe as plain invariants of the same module with M = 9
+    (every start value), so that the transcription is also explored explicitly.  A missing or failing tool is recorded,
+    never reported as a violation of the code; a counterexample to an obligation is a design counterexample."""
+    cfg = tlc.cfg_text(constants={'M': '9'}, invariants=['IndInv', 'Safe'])
+    r = tlc.run('AdbAllocInd', cfg)
+    ctx.add_tlc(r, 'AdbAllocInd M=9, every start value: IndInv and Safe as invariants (TLC)')
+    if r.violations:
+        ctx.violation('C14.' + ('UniqueLive' if r.violations[0]['name'] == 'Safe' else r.violations[0]['name']) + '(design)',
+                      dict(kind='design-counterexample', module='AdbAllocInd', trace=r.violations[0]['trace'][-3:]))
+        return
+    exe = shutil.which('apalache-mc')
+    rec = ctx.extra.setdefault('apalache_inductive', dict(module='AdbAllocInd', M='2^32', threads=3, obligations=[]))
+    if not exe:
+        rec['status'] = 'apalache-mc not found: obligations not discharged'
+        return
+    wd = tlc.workdir('apa')
+    try:
+        shutil.copy(os.path.join(tlc.TLA, 'AdbAllocInd.tla'), wd)
+        with open(os.path.join(wd, 'MCAllocInd.tla'), 'w') as f:
+            f.write('---- MODULE MCAllocInd ----\nEXTENDS AdbAllocInd\nConstInit == M = 4294967296\n====\n')
+        obligations = [('Init => IndInv', 'Init', 'IndInv', 0), ('IndInv /\\ Next => IndInv\'', 'IndInv', 'IndInv', 1),
+                       ('IndInv => IdRange /\\ UniqueLive', 'IndInv', 'Safe', 0)]
+        for name, init, inv, length in obligations:
+            t0 = time.time()
+            try:
+                p = subprocess.run([exe, 'check', '--cinit=ConstInit', '--init=' + init, '--inv=' + inv, '--length=%d' % length,
+                                    '--out-dir=' + os.path.join(wd, 'out'), 'MCAllocInd.tla'], cwd=wd, stdout=subprocess.PIPE,
+                                   stderr=subprocess.STDOUT, timeout=900)
+                out, rc = p.stdout.decode('utf8', 'replace'), p.returncode
+            except subprocess.TimeoutExpired:
+                out, rc = '', 'timeout'
+            verdict = 'proved' if rc == 0 and 'EXITCODE: OK' in out else 'counterexample' if rc == 12 else 'inconclusive (%r)' % (rc,)
+            rec['obligations'].append(dict(obligation=name, verdict=verdict, wall_s=round(time.time() - t0, 1)))
+            if verdict == 'counterexample':
+                ctx.violation('C14.UniqueLive(design)', dict(kind='design-counterexample', module='AdbAllocInd', obligation=name, tail=out[-1500:]))
+                return
+        rec['status'] = 'all proved' if all(o['verdict'] == 'proved' for o in rec['obligations']) else 'not all obligations discharged'
+        if rec['status'] == 'all proved':
+            ctx.count(evaluations=len(obligations))
+    finally:
+        shutil.rmtree(wd, ignore_errors=True)
+
+
 def body(ctx):
     rng = random.Random(ctx.seed)
     # 1. design
@@ -333,6 +382,10 @@ def body(ctx):
     if not r.violations:
         raise tlc.TlcError('vacuity: AdbAlloc with ids handed back does not violate UniqueLive')
     ctx.extra['sanity_mutation_giveback_violates'] = r.violations[0]['name']
+    if not ctx.quick:
+        apalache_inductive(ctx)
+        if ctx.violations:
+            return
     # 2. spec->code
     for start in (0, 1, 2, 3):
         r = alloc_run(['t1', 't2'], start, True, emit=True)
